@@ -152,8 +152,37 @@ fn run_script<E: EndianParse, P: ParseAt + PartialEq + Debug>(e: E, class: Class
                 if consumed + rest != n {
                     return Err(ctx(format!("count() on an iterator that had yielded {} items returned {}, expected {}", consumed, rest, n - consumed)));
                 }
-                if t().iter().count() != n || t().iter().last().is_some() != (n > 0) {
-                    return Err(ctx("iter().count()/last() disagree with len()".to_string()));
+                if t().iter().count() != n {
+                    return Err(ctx("iter().count() disagrees with len()".to_string()));
+                }
+                match t().iter().last() {
+                    Some(v) => {
+                        if n == 0 || !eq(n - 1, &v) {
+                            return Err(ctx(format!("iter().last() = {:?} is not the last whole entry", v)));
+                        }
+                    }
+                    None => {
+                        if n != 0 {
+                            return Err(ctx("iter().last() is None on a non-empty table".to_string()));
+                        }
+                    }
+                }
+                let mut part = t().into_iter();
+                for _ in 0..skip.min(n) {
+                    let _ = part.next();
+                }
+                if let Some(v) = part.last() {
+                    if !eq(n - 1, &v) {
+                        return Err(ctx(format!("last() on a partly consumed iterator = {:?} is not the last whole entry", v)));
+                    }
+                }
+                let mut f = t().iter().fuse();
+                let mut k = 0usize;
+                while f.next().is_some() && k <= n {
+                    k += 1;
+                }
+                if f.next().is_some() || f.next().is_some() {
+                    return Err(ctx("iter().fuse() yielded an item after None".to_string()));
                 }
             }
             Op::Step(kk) => {
